@@ -34,5 +34,7 @@ def run(rep, tier):
     H.r_config_frame(rep, f)
     rep.rule("R-DIR-FROM", "the integer conversion into Direction selects by sign (exact evaluation at the function's literals, their neighbours and the i32 range ends)")
     H.r_dir_from(rep, f)
+    rep.rule("R-PREV-STABLE", "no write to prev_event (output argument of a call, copy/fill, element store) inside a loop that reads the stored start-of-step event values")
+    H.r_prev_stable(rep, hc)
     rep.explanation = ("Largely decided structurally: complete truth table of the sign-change test, previous-value bookkeeping on all paths, "
                        "exactly one record per crossing per step, every accepted step reaches the handler once. Not decided: root location accuracy.")
